@@ -774,19 +774,24 @@ def run_batch_scenario(idx, sc, texts):
             rc, out, err = run_bin(cfg_args + mode_args + pre_args + (paths if sc.get("explicit", True) else [d]) + extra_args, root, env=env)
         what = f"n={n} threads={sc['threads']} failing={sorted(fails)}" + (" mode=stdout" if sc.get("mode") == "stdout" else "") + (f" cfg={sc['cfg']}" if cfg_args else "") \
             + (f" --log-level {sc['loglevel']}" if sc.get("loglevel") else "") + (f" open-file limit {sc['fd_limit']}" if sc.get("fd_limit") else "")
-        if -64 <= rc < 0:
-            # the process was killed by a signal (an abort): when one of the files does the same to a process that formats it
-            # ALONE through the same route, the batch is no different from the file alone as far as that file goes - the other
-            # files were not formatted, which is known finding F23 seen through C18 (identified by that file)
-            for nm, body in files.items():
-                if body is None or len(body) < 100000:
-                    continue
+        if -64 <= rc < 0 and b"overflowed its stack" in err:
+            # the process died of a stack overflow: worker threads have 2 MiB of stack (the main thread 8 MiB), so a deeply
+            # nested file that standard input copes with can overflow when it is given by path. When one of the files does
+            # the same to a process that formats it ALONE with a stack of that size, the batch is no different from the file
+            # alone as far as that file goes - the other files were not formatted, which is known finding F23 seen through
+            # C18 (identified by that file)
+            cands = sorted(((nm, body) for nm, body in files.items() if body is not None and len(body) > 2000), key=lambda x: -len(x[1]))[:12]
+            for nm, body in cands:
                 solo = os.path.join(root, "solo.pas")
                 with open(solo, "wb") as fh:
                     fh.write(body)
-                r1 = run_bin(cfg_args + ["--mode", "stdout", solo], root, env={"RAYON_NUM_THREADS": str(sc["threads"])})
-                if -64 <= r1[0] < 0:
-                    problems.append({"clause": "exit_status", "detail": f"the batch was killed by signal {-rc}; {nm} ({len(body)} bytes) kills a process that formats it alone as well ({what}); stderr {' '.join(err[-200:].decode(errors='replace').split())} [site: a file that aborts the process when formatted alone takes the batch with it]"})
+                e = dict(os.environ); e.pop("PASFMT_VERIF_TRACE", None); e["RAYON_NUM_THREADS"] = "1"
+                try:
+                    r1 = subprocess.run(["bash", "-c", "ulimit -s 2048; exec \"$0\" \"$@\"", PASFMT] + cfg_args + ["--mode", "stdout", solo], cwd=root, stdout=subprocess.DEVNULL, stderr=subprocess.PIPE, env=e, timeout=300)
+                except subprocess.TimeoutExpired:
+                    continue
+                if -64 <= r1.returncode < 0 and b"overflowed its stack" in r1.stderr:
+                    problems.append({"clause": "exit_status", "detail": f"the batch died of a stack overflow (signal {-rc}); {nm} ({len(body)} bytes) does the same to a process that formats it alone with a stack of 2 MiB ({what}) [site: a file that overflows the stack when formatted alone takes the batch with it]"})
                     return problems, False, []
         if (rc != 0) != bool(fails):
             problems.append({"clause": "exit_status", "detail": f"exit status {rc} but the failing files are {sorted(fails)} ({what}); stderr {err[-300:].decode(errors='replace')}"})
